@@ -178,6 +178,50 @@ class SequenceContainsLoop(LoopSpec):
         return contains_axioms(V, x, [])
 
 
+def count_axioms(V, x, idxs):
+    """[SPEC-BUILTIN] list.count(x), by its definition over prefixes: no element among the first 0; the first i+1
+    contain one more than the first i iff element i is / == x; count is the prefix count at len."""
+    cp = bs.list_count_prefix
+    out = [cp(V, x, z3.IntVal(0)) == 0, bs.list_count(V, x) == cp(V, x, bs.list_len(V))]
+    for i in idxs:
+        out.append(z3.Implies(z3.And(i >= 0, i < bs.list_len(V)),
+                              cp(V, x, i + 1) == cp(V, x, i) + z3.If(pyeq(bs.list_get(V, VInt(i)), x), 1, 0)))
+    return out
+
+
+class SequenceCountLoop(LoopSpec):
+    """collections.abc.Sequence.count, after the mechanical [L-GENSUM] desugaring of `sum(1 for v in self if v is value
+    or v == value)`:   _acc = 0;  for v in self:  if v is value or v == value: _acc += 1;  return _acc
+    With V the receiver's plain view (loaded once by __iter__):   _acc == list_count_prefix(V, value, position)."""
+    ordered = True
+
+    def parts(self, L, st):
+        from pyvc.loops import param_name, returned_name
+        me = st.loc[param_name(L.fi, 0)]
+        x = to_val(st.loc[param_name(L.fi, 1)])
+        V = st.sel("View", z3.IntVal(me.addr))
+        acc = as_int(st.loc[returned_name(L.fi)])
+        return me, x, V, acc
+
+    def prepare(self, L, st):
+        me, x, V, acc = self.parts(L, st)
+        st.assume(bs.list_len(L.seq.term) == bs.list_len(V))      # [N-VIEW] container and view agree in length
+        st.assume(*count_axioms(V, x, []))
+
+    def invariant(self, L, st, vis):
+        me, x, V, acc = self.parts(L, st)
+        return [("accumulator-is-the-prefix-count", acc == bs.list_count_prefix(V, x, L.pos_now))]
+
+    def iteration_facts(self, L, st, i):
+        me, x, V, acc = self.parts(L, st)
+        c = L.seq.term
+        return [L.eng.intr.iv(st, bs.list_get(c, VInt(i))) == bs.list_get(V, VInt(i))] + count_axioms(V, x, [i])
+
+    def at_exit(self, L, st):
+        me, x, V, acc = self.parts(L, st)
+        return count_axioms(V, x, [])
+
+
 def index_axioms(V, x, idxs):
     """[SPEC-BUILTIN] list.index(x): the LEAST index of an element that is / == x; ValueError iff there is none."""
     r = bs.list_index(V, x)
@@ -276,6 +320,7 @@ class SequenceIndexLoop(LoopSpec):
 def register(eng):
     eng.loop_specs[("stdlib:Sequence.__contains__", 1)] = SequenceContainsLoop()
     eng.loop_specs[("stdlib:Sequence.index", 1)] = SequenceIndexLoop()
+    eng.loop_specs[("stdlib:Sequence.count", 1)] = SequenceCountLoop()
     eng.loop_specs[("_comp_list", 1)] = FromBaseMapLoop("list")
     eng.loop_specs[("_comp_dict", 1)] = FromBaseMapLoop("dict")
     eng.virtual["_to_base"] = VirtualToBase()
